@@ -87,6 +87,20 @@ def run(ctx) -> None:
     vcs_marker_rule(ctx, "R5")
     ctx.rule("R7", "every command gets past its first step: logging.basicConfig receives a logging level as level= and a text as format=")
     logging_setup_rule(ctx, "R7")
+    # "in any project directory": looking through the candidate files must not fail on a file that is not UTF-8 (a Latin-1 setup.cfg
+    # next to the pyproject.toml that is going to be used): the sniffing reads bytes, or decodes leniently
+    pk_fn = prog.function("config._pick_config_filepath")
+    sniff = [s_ for s_ in effects.sites[pk_fn.fq] if s_.effect == "FS_READ"]
+    ctx.floor("R4", "reads of candidate files in _pick_config_filepath", len(sniff), 1)
+    for s_ in sniff:
+        mode = str(s_.detail.get("mode") or "")
+        kw_ = shapes.kwargs_of(s_.node) if isinstance(s_.node, ast.Call) else {}
+        lenient = "errors" in kw_ and const_str(kw_["errors"]) in ("ignore", "replace", "surrogateescape", "backslashreplace")
+        binary = "b" in mode or s_.detail.get("via") in ("read_bytes", "Path.read_bytes")
+        ctx.check("R4", binary or lenient, f"_pick_config_filepath: candidates are sniffed as bytes (mode {mode!r})",
+                  "config._pick_config_filepath: a candidate file is decoded while looking for a section",
+                  f"`{unparse(s_.node)[:70]}` decodes every existing candidate: a file that is not UTF-8 and would never be chosen makes `init`, `show` and `update` die with "
+                  f"UnicodeDecodeError", loc=s_.loc, witness={"files": "pyproject.toml (UTF-8) + setup.cfg (Latin-1: author = Jörg)"})
     ctx.rule("R4", "file choice: candidates == SUPPORTED_CONFIGS; configured files first, then existing, then bumpver.toml; self-snippets cover the candidates")
 
     # ---------------------------------------------------------------- R1
